@@ -465,6 +465,11 @@ func runVarFam(vec map[string]interface{}) map[string]interface{} {
 					return variants.Variants(bytes.NewReader(msa), false, "ref", bytes.NewReader(anno), suffix, &out, s, e, agg, thr, app, t)
 				})
 			}
+		case "variants-annoref":
+			// the alignment without its reference row (rows in the coordinates of the annotation's own sequence), no --reference
+			err, ok = callWithDeadline(callDeadline, func() error {
+				return variants.Variants(bytes.NewReader(renderFasta(mq, wrap, crlf)), false, "", bytes.NewReader(anno), suffix, &out, s, e, agg, thr, app, t)
+			})
 		case "samvar":
 			err, ok = callWithDeadline(callDeadline, func() error {
 				return sam.Variants(bytes.NewReader(samData), bytes.NewReader(refFa), true, bytes.NewReader(anno), suffix, &out, s, e, agg, thr, app, t)
